@@ -15,6 +15,11 @@ def sh(cmd, cwd=None, timeout=3000):
     p = subprocess.run(cmd, shell=True, cwd=cwd, env=env, stdout=subprocess.PIPE, stderr=subprocess.STDOUT, text=True, timeout=timeout)
     return p.returncode, p.stdout
 
+def fixcmd(cmd, pid, wt):
+    import re
+    return re.sub(r"/tmp/wt2?-%s" % pid.lower(), wt, cmd).replace("<repo>", wt)
+
+
 def main():
     src = sys.argv[1].rstrip("/")
     checks = None
@@ -50,10 +55,10 @@ def main():
                 res["suite_passes_with_patch"] = (rc == 0 and not fails)
                 res["suite_output_tail"] = out[-1500:]
                 shutil.copy(demo, os.path.join(wt, meta["demo_path"]))
-                rc, out = sh(meta["demo_cmd"].replace("/tmp/wt-%s" % pid.lower(), wt).replace("<repo>", wt), cwd=wt)
+                rc, out = sh(fixcmd(meta["demo_cmd"], pid, wt), cwd=wt)
                 res["demo_fails_with_patch"] = rc != 0
                 sh("git apply -R %s" % patch, cwd=wt)
-                rc, out = sh(meta["demo_cmd"].replace("/tmp/wt-%s" % pid.lower(), wt).replace("<repo>", wt), cwd=wt)
+                rc, out = sh(fixcmd(meta["demo_cmd"], pid, wt), cwd=wt)
                 res["demo_passes_without_patch"] = rc == 0
                 if rc != 0:
                     res["demo_pristine_output"] = out[-1500:]
